@@ -278,6 +278,11 @@ func report(o *runOpts, prop string, frs []*FuncResult, wall float64) int {
 	solverSecs := 0.0
 	replayDir := filepath.Join(o.verif, "out", "replay")
 	os.MkdirAll(replayDir, 0o755)
+	if old, _ := filepath.Glob(filepath.Join(replayDir, prop+"-*.json")); len(old) > 0 {
+		for _, f := range old {
+			os.Remove(f)
+		}
+	}
 
 	for _, fr := range frs {
 		finfo := map[string]interface{}{"function": shortKey(fr.Name), "tags": fr.Tags, "file": relRepo(o.repo, fr.File), "line": fr.Line,
